@@ -127,6 +127,15 @@ func c19Gen(tier string, seed int64) []fw.Case {
 			add(c19Desc{Kind: "invalid", Role: role, Doc: x[0], Tgt: x[1]}, fmt.Sprintf("invalid/%s/%q/%s", role, x[0], x[1]))
 		}
 	}
+	// messages beyond the read limit whose first JSON value ends well before it (white space padding, further
+	// documents, garbage behind it): such a message is never reported as read
+	for _, role := range bothRoles {
+		for _, tail := range []string{"spaces", "newline-documents", "garbage", "one-long-string"} {
+			for _, defl := range []bool{false, true} {
+				add(c19Desc{Kind: "over-limit", Role: role, Doc: tail, Defl: defl}, fmt.Sprintf("over-limit/%s/%s/deflate=%v", role, tail, defl))
+			}
+		}
+	}
 	return cases
 }
 
@@ -267,6 +276,8 @@ func c19Run(r *fw.R, d c19Desc) {
 		c19Alias(r, d)
 	case "invalid":
 		c19Invalid(r, d)
+	case "over-limit":
+		c19OverLimit(r, d)
 	}
 }
 
@@ -632,4 +643,52 @@ func c19Invalid(r *fw.R, d c19Desc) {
 		return
 	}
 	r.Count("invalid_documents_rejected", 1)
+}
+
+func c19OverLimit(r *fw.R, d c19Desc) {
+	r.SetSample(d)
+	c, peer, peerEnd, err := c19Conn(d, d.Seed)
+	if err != nil {
+		r.Violate("C19/attach-failed", err.Error(), "")
+		return
+	}
+	defer c.CloseNow()
+	defer peerEnd.Close()
+	const limit = 5000
+	c.SetReadLimit(limit)
+	ctx, cancel := context.WithTimeout(context.Background(), 30*time.Second)
+	defer cancel()
+	doc := []byte(`{"first":"value that ends long before the limit"}`)
+	switch d.Doc {
+	case "spaces":
+		doc = append(doc, bytes.Repeat([]byte(" "), 3*limit)...)
+	case "newline-documents":
+		for len(doc) < 3*limit {
+			doc = append(doc, "\n{\"next\":1}"...)
+		}
+	case "garbage":
+		doc = append(doc, bytes.Repeat([]byte("x"), 3*limit)...)
+	case "one-long-string":
+		doc = []byte(`"` + strings.Repeat("s", 3*limit) + `"`)
+	}
+	payload := doc
+	f := wire.Data(wire.OpText, true, payload)
+	if d.Defl {
+		def := &wire.Deflater{Takeover: wire.Params{Deflate: true}.SenderTakeover(d.Role == RoleServer)}
+		f = wire.Data(wire.OpText, true, def.Message(doc, 6, wire.EndSync))
+		f.Rsv1 = true
+	}
+	peer.Send(f)
+	var v any
+	rerr := wsjson.Read(ctx, c, &v)
+	what := fmt.Sprintf("%s deflate=%v: a %d byte message (%s behind a small first value) with the read limit at %d", d.Role, d.Defl, len(doc), d.Doc, limit)
+	r.Key("over-limit/%s/%s/deflate=%v", d.Role, d.Doc, d.Defl)
+	r.Count("over_limit_messages_sent", 1)
+	if rerr == nil {
+		r.Violate("C19/over-limit-message-read", fmt.Sprintf("%s: wsjson.Read returned nil (decoded %.60v)", what, v), "")
+		return
+	}
+	if !peer.WaitEnd(15 * time.Second) {
+		r.Violate("C19/invalid-document-connection-open", what+": the connection was not closed", "")
+	}
 }
